@@ -4,6 +4,7 @@
 package sqlast
 
 import (
+	"encoding/json"
 	"fmt"
 	"strings"
 )
@@ -14,7 +15,42 @@ type Value struct {
 	T string `json:"t"`
 	V any    `json:"v,omitempty"`
 	S string `json:"s,omitempty"`
+	// exact fraction N/D (T == "q"): DECIMAL(p,2) column values are sent as N/100
+	N int `json:"-"`
+	D int `json:"-"`
 }
+
+// MarshalJSON writes {"t":"q","n":N,"d":D} for fractions (n may be 0, so no omitempty) and the plain
+// struct otherwise.
+func (v Value) MarshalJSON() ([]byte, error) {
+	if v.T == "q" {
+		return []byte(fmt.Sprintf(`{"t":"q","n":%d,"d":%d}`, v.N, v.D)), nil
+	}
+	type plain struct {
+		T string `json:"t"`
+		V any    `json:"v,omitempty"`
+		S string `json:"s,omitempty"`
+	}
+	return json.Marshal(plain{v.T, v.V, v.S})
+}
+
+func (v *Value) UnmarshalJSON(b []byte) error {
+	var raw struct {
+		T string `json:"t"`
+		V any    `json:"v"`
+		S string `json:"s"`
+		N int    `json:"n"`
+		D int    `json:"d"`
+	}
+	if err := json.Unmarshal(b, &raw); err != nil {
+		return err
+	}
+	*v = Value{T: raw.T, V: raw.V, S: raw.S, N: raw.N, D: raw.D}
+	return nil
+}
+
+// Dec is the DECIMAL(p,2) value n/100.
+func Dec(n100 int) Value { return Value{T: "q", N: n100, D: 100} }
 
 func Null() Value     { return Value{T: "n"} }
 func Int(i int) Value { return Value{T: "i", V: i} }
@@ -36,6 +72,12 @@ func (v Value) SQL() string {
 		return "NULL"
 	case "i":
 		return fmt.Sprint(v.V)
+	case "q":
+		n, sign := v.N, ""
+		if n < 0 {
+			n, sign = -n, "-"
+		}
+		return fmt.Sprintf("%s%d.%02d", sign, n/100, n%100)
 	case "s":
 		var sb strings.Builder
 		sb.WriteByte('\'')
